@@ -16,8 +16,9 @@ THEOREMS = ['C12_trunc_safe', 'C12_key_mismatch_miss', 'C12_key_injective', 'C12
             'C12_used_files_changed_miss', 'C12_body_integrity', 'C12_byte_edit_miss', 'C12_read_after_write',
             'C12_construct_spec', 'C12_history_inv', 'C12_cut_pickle_miss', 'C12_concat_framing_refuted', 'C12_unhashable_are_objects',
             'C12_unhashable_reapplied_refuted', 'C12_instance_ideal', 'C12_instance_rest', 'C12_instance_prefix_fails', 'C12_example_history',
-            'C12_example_history_inv']
-GEN_DEPS = ['CacheKey']
+            'C12_example_history_inv', 'C12_write_calls_file', 'C12_crash_anywhere_miss_or_correct', 'C12_crash_plain_prefix',
+            'C12_crash_atomic_old', 'C12_history_crashpoints_inv', 'C12_example_history_crashpoints', 'C12_example_history_crashpoints_inv']
+GEN_DEPS = ['CacheKey', 'Printable']
 RULE = ('real cache files of a pool of LALR grammars (imports of local files and of the bundled common.lark, hashed and '
         'run-time options): (1) bytes written vs the model write (header = sha256 hex of the repr-framed key, space, sha256 '
         'hex of the body, newline, two pickles located with pickletools); (2) every/sampled truncation offset; (3) single-byte '
@@ -30,7 +31,8 @@ RULE = ('real cache files of a pool of LALR grammars (imports of local files and
         'non-trivial = distinct damaged-file case, or distinct history containing both a hit and a rebuild')
 TRUSTED_BASE = ['cache section of Lark.__init__, _bytes_digest, sha256_digest, verify_used_files, FS.open, Lark.save pinned by exact '
                 'AST templates in translator/gen_cache.py; key framing, unhashable and _LOAD_ALLOWED_OPTIONS regenerated',
-                'Python repr() of str modelled for ASCII text only (Cache/PyRepr.v); non-ASCII grammars are outside the byte-level tie',
+                'Python repr() of str modelled for every str (UTF-8 representation, Cache/PyRepr.v); str.isprintable is a table regenerated from the running interpreter (Gen/Printable.v)',
+                'crash points replayed in-process: FS.open runs with lark.utils.open shadowed by an unbuffered file that raises a BaseException at the crash point; the atomicwrites branch runs against a stand-in package (temporary file + os.replace)',
                 'executable SHA-256 of Cache/Sha256.v uses primitive 63-bit integers under vm_compute (correspondence only; '
                 'the theorems are about an abstract digest)',
                 'hit/miss observed by wrapping Lark._load; used files observed by wrapping lark.lark.load_grammar']
@@ -39,7 +41,7 @@ ASSUMPTIONS = ['sha256 is idealised as a collision-free fixed-length digest (pre
                'okenv / resolution_stable: inside the class of file-system states considered, a construction depends on the file '
                'system only through the text of the files it records (violated on the implementation by F11, F16, F17)',
                'runtime_reapplied: options left out of the key are re-applied on load (violated by F15: edit_terminals, postlex.always_accept)',
-               'a crashed non-atomic write leaves a prefix of the new content (atomicwrites is not installed here)']
+               'operating-system model of one regular file: open(wb) truncates, write(2) lands at the writer\'s own offset (a crash leaves a prefix: now a theorem, C12_crash_plain_prefix); atomicwrites = rename on close']
 
 IMPORTS = 'From Coq Require Import Uint63.\nFrom LV Require Import Cache.Bytes Cache.PyRepr Gen.CacheKey Cache.Cache Cache.Sha256 Cache.WritePath Cache.CacheCheck.'
 UNHASHABLE = ('transformer', 'postlex', 'lexer_callbacks', 'edit_terminals', '_plugins')   # the property's own reading
@@ -444,12 +446,17 @@ def BL(b):
 def coq_cfg(world, ev, items, text=None):
     ver = ev.get('version') or world.probe.version0
     pv = repr(tuple(ev.get('pyver') or world.probe.vi0[:2]))
-    return '(mk %s %s %s %s)' % (S(text if text is not None else grammar_text(world, ev)), LT(['(%s, %s)' % (S(k), S(v)) for k, v in items], SS), S(ver), S(pv))
+    return '(mk %s %s %s %s)' % (U8(text if text is not None else grammar_text(world, ev)), LT(['(%s, %s)' % (U8(k), U8(v)) for k, v in items], SS), U8(ver), S(pv))
+
+
+def U8(s):
+    """a Python str as the model sees it: its UTF-8 encoding (a lone surrogate as the three bytes of its code point)"""
+    return S(s.encode('utf8', 'surrogatepass').decode('latin1'))
 
 
 def ascii_ok(world, ev, items, text=None):
-    t = text if text is not None else grammar_text(world, ev)
-    return t.isascii() and all(k.isascii() and v.isascii() for k, v in items)
+    """since round 12 the model's repr() covers every str: nothing is left out of the byte-level tie"""
+    return True
 
 
 class Tables:
@@ -473,7 +480,7 @@ class Tables:
         out = []
         for pu in self.pu:
             u = pickle.loads(pu)
-            out.append('(%s, %s)' % (BL(pu), LT(['(%s, %s)' % (S(path_str(p)), S(h)) for p, h in u.items()], SS)))
+            out.append('(%s, %s)' % (BL(pu), LT(['(%s, %s)' % (U8(path_str(p)), S(h)) for p, h in u.items()], SS)))
         return LT(out, '(blob * list (string * string))')
 
     def coq_td(self):
@@ -493,8 +500,8 @@ class Tables:
         out = []
         for s, p in self.paths.items():
             t = current_text(p)
-            if t is not None and t.isascii():
-                out.append('(%s, %s)' % (S(s), S(t)))
+            if t is not None:
+                out.append('(%s, %s)' % (U8(s), U8(t)))
         return LT(out, SS)
 
 
@@ -883,8 +890,8 @@ def run_history_env(world, hist):
         env = []
         for s, p in seen_paths.items():
             t = current_text(p)
-            if t is not None and t.isascii():
-                env.append('(%s, %s)' % (S(s), S(t)))
+            if t is not None:
+                env.append('(%s, %s)' % (U8(s), U8(t)))
         obs, problems = run_history(world, sub, owner=owner)
         obs[0]['env'] = LT(env, SS)
         obs_all.append(obs[0])
@@ -1207,6 +1214,111 @@ def stream_crashpoints(ctx, probe):
                       'writer died at %r under %s open: model and implementation disagree on the bytes left on the path or on hit/miss '
                       'of the later reader; the property oracle held' % (w['cp'], w['sem']))
 
+
+# ------------------------------------------------------------------------------------------------------------
+# repr() of the strings that reach the cache key, byte for byte (round 12)
+REPR_ALPHABET = ("ab Z09_'\"\\" + "\x00\x01\x07\x08\t\n\x0b\r\x1b\x1f\x7f" + "\x80\x85\x9f\xa0\xa1\xad\xe9\xff" +
+                 "Ā́͸͹​  ‮　日퟿﻿�￾￿" +
+                 "\U00010000\U0001d11e\U0001f600\U0002fa1d\U000e0001\U000e01ef\U000f0000\U0010ffff")
+REPR_FIXED = ["", "'", '"', "'\"", "\\", "\\'", "it's", 'say "hi"', "both ' and \"", "\\x80", "\x80", "\\u200b", "​",
+              "\\n", "\n", "é", "\xe9", "\x7f", "\x7e", "\x1f", " ", "\xa0", "\xad", "\xac", "ͷ͸", "￿\U00010000",
+              "\ud800", "\udfff", "a\udc80b", "\U0010ffff", "\U000e0000\U000e0001", "tab\there", "'" * 3 + '"', "(', ')", "[('k', 'v')]"]
+
+
+def unicode_configs():
+    """(name, grammar, extra options, probes): the same small language, the key differs in characters that repr() must keep apart"""
+    base = 'start: "a" "b"'
+    C = []
+    for i, tail in enumerate([" // it's", ' // say "hi"', " // ' and \"", " // back\\slash \\x80 \\u200b \\n", " // ctl \x00\x01\x1f\x7f\t\r",
+                              " // latin \x80\x9f\xa0\xad\xe9\xff", " // bmp ͸​ 日﻿￿ é",
+                              " // astral \U0001f600\U000e0001\U0010ffff\U0001d11e"]):
+        C.append(('u-g%d' % i, base + tail + '\n', [], ['ab', 'a']))
+    for i, sp in enumerate(["it's.lark", 'q"q.lark', "d\xe9j\xe0/日本.lark", "z​w\x80.lark", "back\\slash\t.lark", "\U0001f600\U000e0001.lark"]):
+        C.append(('u-sp%d' % i, base + '\n', [['source_path', sp]], ['ab', 'a']))
+    C.append(('u-ip', base + '\n', [['import_paths', ["it's", 'q"q', "\xe9\x80​\U0001f600", "b\\s"]]], ['ab', 'a']))
+    C.append(('u-term', 'start: "\xe9" "日" "\U0001f600"\n', [], ['\xe9日\U0001f600', 'e']))
+    return C
+
+
+def stream_repr(ctx, probe):
+    rng = ctx.rng
+    # ---- 1. the function itself ---------------------------------------------------------------------------------
+    strs = list(REPR_FIXED) + [c for c in REPR_ALPHABET]
+    for _ in range(ctx.scale(120, 1500)):
+        strs.append(''.join(rng.choice(REPR_ALPHABET) for _ in range(rng.randint(1, 10))))
+    for _ in range(ctx.scale(20, 300)):       # code points taken anywhere, surrogates included
+        strs.append(''.join(chr(rng.choice([rng.randrange(0x80, 0x100), rng.randrange(0x100, 0x3000), rng.randrange(0xd7f0, 0xe010),
+                                            rng.randrange(0xfff0, 0x10010), rng.randrange(0x10000, 0x110000)])) for _ in range(rng.randint(1, 4))))
+    strs = list(dict.fromkeys(strs))
+    cases = []
+    for t in strs:
+        r = repr(t)
+        cases.append('(%s, %s)' % (U8(t), U8(r)))
+        kinds = set()
+        for ch in t:
+            o = ord(ch)
+            kinds.add('quote' if ch in '\'"' else 'backslash' if ch == '\\' else 'tnr' if ch in '\t\n\r' else
+                      'ascii-ctl' if o < 32 or o == 127 else 'ascii' if o < 127 else
+                      ('printable' if ch.isprintable() else 'escaped') + ('-latin1' if o < 256 else '-bmp' if o < 65536 else '-astral'))
+        ctx.count('repr', key=t, nontrivial=bool(kinds - {'ascii'}), **{'repr_' + k.replace('-', '_'): True for k in kinds})
+    bad, errs = ctx.coq_bad_indices('c12rp', IMPORTS, 'check_repr', cases, chunk=400)
+    for e in errs:
+        ctx.violation('correspondence:coq-eval', {'error': e}, False, e[:300])
+    for i in bad:
+        ctx.violation('correspondence:PyRepr.srepr vs repr()', {'no_longer_checks': 'byte-for-byte repr of str', 'string': ascii(strs[i])}, False,
+                      'the model of repr() differs from Python on %s' % ascii(strs[i]))
+    ctx.sample({'stream': 'repr', 'string': ascii(strs[len(REPR_FIXED) + len(REPR_ALPHABET)]), 'repr': ascii(repr(strs[len(REPR_FIXED) + len(REPR_ALPHABET)]))})
+    # ---- 2. the real cache key of configurations with such characters, and A,B,B,A histories on pairs of them --------
+    U = unicode_configs()
+    kcases, kmeta = [], []
+    for name, g, extra, probes in (U if ctx.thorough() or ctx.widen else rng.sample(U, 6)):
+        world = World(ctx, probe, 'uk')
+        ev = mk_event((name, g, extra, {}, probes))
+        obs, problems = run_history_env(world, {'f0': None, 'events': [ev, ev]})
+        for stage, det, i in problems:
+            ctx.violation('unicode-key:' + stage, {'kind': 'history', 'hist': {'f0': None, 'events': [ev, ev]}}, True, det)
+        F = obs[0]['final']
+        ctx.count('unicode-keys', key=name, nontrivial=True)
+        if F is None or len(F) < 64 or problems:
+            continue
+        if not obs[1]['hit']:
+            ctx.violation('unicode-key:unused', {'kind': 'history', 'hist': {'f0': None, 'events': [ev, ev]}, 'expect_hit': True}, True,
+                          'a complete, current cache file was not used')
+        kcases.append('(%s, %s)' % (coq_cfg(world, ev, obs[0]['items']), S(F[:64].decode('latin1'))))
+        kmeta.append(ev)
+    bad, errs = ctx.coq_bad_indices('c12uk', IMPORTS, 'check_keyd', kcases, chunk=8)
+    for e in errs:
+        ctx.violation('correspondence:coq-eval', {'error': e}, False, e[:300])
+    for i in bad:
+        ctx.violation('correspondence:Cache.key vs cache_sha256 of Lark.__init__',
+                      {'no_longer_checks': 'sha256 of the repr-framed key = digest in the header', 'kind': 'history',
+                       'hist': {'f0': None, 'events': [kmeta[i]]}}, False,
+                      'the digest at the start of the header is not sha256 of the model key for %r' % kmeta[i]['name'])
+    pairs = [(0, 1), (3, 5), (9, 11), (8, 13)]
+    if not ctx.thorough() and not ctx.widen:
+        pairs = [pairs[rng.randrange(len(pairs))]]
+    hcases, hmeta = [], []
+    for a, b in dict.fromkeys(pairs):
+        ea, eb = (mk_event((U[i][0], U[i][1], U[i][2], {}, U[i][3])) for i in (a, b))
+        hist = {'f0': None, 'events': [ea, eb, eb, ea]}
+        world = World(ctx, probe, 'uh')
+        obs, problems = run_history_env(world, hist)
+        for stage, det, i in problems:
+            ctx.violation('unicode-history:' + stage, {'kind': 'history', 'hist': {'f0': None, 'events': hist['events'][:i + 1]}}, True, det)
+        hits = sum(1 for o in obs if o['hit'])
+        ctx.count('unicode-histories', key=(U[a][0], U[b][0]), nontrivial=(0 < hits < len(obs)), hits=hits)
+        c = coq_history(world, hist, obs)
+        if c is not None:
+            hcases.append(c)
+            hmeta.append(hist)
+    bad, errs = ctx.coq_bad_indices('c12uh', IMPORTS, 'check_hist', hcases, chunk=1)
+    for e in errs:
+        ctx.violation('correspondence:coq-eval', {'error': e}, False, e[:300])
+    for i in bad:
+        ctx.violation('correspondence:Cache.run vs histories of Lark(..., cache=path)',
+                      {'no_longer_checks': 'hit/miss and file bytes after every event', 'kind': 'history', 'hist': hmeta[i]}, False,
+                      'model and implementation disagree on a history over keys with non-ASCII / escaped characters')
+
 # ------------------------------------------------------------------------------------------------------------
 # known findings: fixed histories outside the class where the theorems' hypotheses hold
 def exotic():
@@ -1251,6 +1363,7 @@ def correspond(ctx):
     try:
         stream_exotic(ctx, probe)
         stream_crashpoints(ctx, probe)
+        stream_repr(ctx, probe)
         stream_histories(ctx, probe)
         stream_write_and_damage(ctx, probe)
     finally:
